@@ -2,4 +2,389 @@ import TensorModel.Run
 /-! Helper lemmas for C01 (addressing). -/
 namespace TM
 
+/-! ### `inBox` basics -/
+
+theorem inBox_length : ∀ (sh : Shape) (c : List Int), inBox sh c = true → c.length = sh.length := by
+  intro sh
+  induction sh with
+  | nil => intro c h; cases c <;> simp_all [inBox]
+  | cons d ds ih =>
+    intro c h
+    cases c with
+    | nil => simp [inBox] at h
+    | cons x xs =>
+      simp only [inBox, Bool.and_eq_true] at h
+      simp [ih xs h.2]
+
+theorem prefixProds_length : ∀ (sh : Shape) (a : Int), (prefixProds a sh).length = sh.length := by
+  intro sh
+  induction sh with
+  | nil => intro a; simp [prefixProds]
+  | cons d ds ih => intro a; simp [prefixProds, ih]
+
+theorem calcStrides_length : ∀ (sh : Shape), (calcStrides sh).length = sh.length := by
+  intro sh
+  induction sh with
+  | nil => simp [calcStrides]
+  | cons d ds ih => simp [calcStrides, ih]
+
+/-- in-box coordinates of an all-ones shape are all zero -/
+theorem inBox_scalarEquiv_zero : ∀ (sh : Shape) (c : List Int),
+    isScalarEquiv sh = true → inBox sh c = true → c.all (· == 0) = true := by
+  intro sh
+  induction sh with
+  | nil => intro c _ h; cases c <;> simp_all [inBox]
+  | cons d ds ih =>
+    intro c hs h
+    cases c with
+    | nil => simp [inBox] at h
+    | cons x xs =>
+      simp only [inBox, Bool.and_eq_true, decide_eq_true_eq] at h
+      simp only [isScalarEquiv, List.all_cons, Bool.and_eq_true, beq_iff_eq] at hs
+      have := ih xs (by simpa [isScalarEquiv] using hs.2) h.2
+      simp only [List.all_cons, Bool.and_eq_true, beq_iff_eq]
+      exact ⟨by omega, this⟩
+
+theorem dot_zero_left : ∀ (c s : List Int), c.all (· == 0) = true → dot c s = 0 := by
+  intro c
+  induction c with
+  | nil => intro s _; simp [dot]
+  | cons x xs ih =>
+    intro s h
+    simp only [List.all_cons, Bool.and_eq_true, beq_iff_eq] at h
+    cases s with
+    | nil => simp [dot]
+    | cons y ys => simp [dot, h.1, ih ys h.2]
+
+/-- all zeros of the right arity are in the box of an all-ones shape -/
+theorem zero_inBox_scalarEquiv : ∀ (sh : Shape) (c : List Int),
+    isScalarEquiv sh = true → c.length = sh.length → c.all (· == 0) = true → inBox sh c = true := by
+  intro sh
+  induction sh with
+  | nil => intro c _ hl _; cases c <;> simp_all [inBox]
+  | cons d ds ih =>
+    intro c hs hl h
+    cases c with
+    | nil => simp at hl
+    | cons x xs =>
+      simp only [isScalarEquiv, List.all_cons, Bool.and_eq_true, beq_iff_eq] at hs
+      simp only [List.all_cons, Bool.and_eq_true, beq_iff_eq] at h
+      simp only [inBox, Bool.and_eq_true, decide_eq_true_eq]
+      refine ⟨⟨by omega, by omega⟩, ih xs (by simpa [isScalarEquiv] using hs.2) (by simpa using hl) h.2⟩
+
+/-! ### the `ltoi.go` recursion -/
+
+theorem go_exact (shape : Shape) (strides : List Int) (hlen : strides.length = shape.length) :
+    ∀ (cs : List Int) (i : Nat) (acc : Int), inBox (shape.drop i) cs = true →
+      ltoi.go shape strides i acc cs = .ok (acc + dot cs (strides.drop i)) := by
+  intro cs
+  induction cs with
+  | nil => intro i acc _; simp [ltoi.go, dot]
+  | cons c cs ih =>
+    intro i acc hbox
+    by_cases hi : i < shape.length
+    · have hi' : i < strides.length := by omega
+      rw [List.drop_eq_getElem_cons hi] at hbox
+      rw [List.drop_eq_getElem_cons hi']
+      simp only [inBox, Bool.and_eq_true, decide_eq_true_eq] at hbox
+      obtain ⟨⟨h0, h1⟩, hrest⟩ := hbox
+      have ih' := ih (i+1) (acc + strides[i] * c) hrest
+      have hoob : (decide (c < 0) || decide (c ≥ shape[i])) = false := by
+        simp only [Bool.or_eq_false_iff, decide_eq_false_iff_not]; omega
+      have harith : acc + strides[i] * c + dot cs (List.drop (i + 1) strides)
+          = acc + dot (c :: cs) (strides[i] :: List.drop (i + 1) strides) := by
+        simp only [dot]; rw [Int.mul_comm]; omega
+      rw [ltoi.go]
+      simp only [List.getElem?_eq_getElem hi, hoob]
+      by_cases hv : (isVector shape && strides.length == 1) = true
+      · have h1 : strides.length = 1 := by
+          simp only [Bool.and_eq_true, beq_iff_eq] at hv; exact hv.2
+        have hi0 : i = 0 := by omega
+        subst hi0
+        simp only [hv, List.getElem?_eq_getElem hi']
+        simp only [Bool.false_eq_true, if_false, if_true]
+        rw [ih', harith]
+      · simp only [hv, List.getElem?_eq_getElem hi']
+        simp only [Bool.false_eq_true, if_false]
+        rw [ih', harith]
+    · have : shape.drop i = [] := List.drop_eq_nil_of_le (by omega)
+      rw [this] at hbox; simp [inBox] at hbox
+
+theorem go_rejects (shape : Shape) (strides : List Int) (hlen : strides.length = shape.length) :
+    ∀ (cs : List Int) (i : Nat) (acc : Int), cs.length = (shape.drop i).length →
+      inBox (shape.drop i) cs = false →
+      ∃ tag, ltoi.go shape strides i acc cs = .error (.err tag) := by
+  intro cs
+  induction cs with
+  | nil =>
+    intro i acc hl hbox
+    have : shape.drop i = [] := by
+      cases h : shape.drop i with
+      | nil => rfl
+      | cons a b => rw [h] at hl; simp at hl
+    rw [this] at hbox; simp [inBox] at hbox
+  | cons c cs ih =>
+    intro i acc hl hbox
+    by_cases hi : i < shape.length
+    · have hi' : i < strides.length := by omega
+      rw [List.drop_eq_getElem_cons hi] at hbox hl
+      rw [ltoi.go]
+      simp only [List.getElem?_eq_getElem hi]
+      by_cases hoob : (decide (c < 0) || decide (c ≥ shape[i])) = true
+      · simp only [hoob, if_true]; exact ⟨_, rfl⟩
+      · simp only [hoob]
+        simp only [Bool.false_eq_true, if_false]
+        have hin : (decide (0 ≤ c) && decide (c < shape[i])) = true := by
+          simp only [Bool.or_eq_true, decide_eq_true_eq, not_or] at hoob
+          simp only [Bool.and_eq_true, decide_eq_true_eq]; omega
+        have hrest : inBox (shape.drop (i+1)) cs = false := by
+          simp only [inBox, hin, Bool.true_and] at hbox; exact hbox
+        have hl' : cs.length = (shape.drop (i+1)).length := by
+          simp only [List.length_cons] at hl; omega
+        by_cases hv : (isVector shape && strides.length == 1) = true
+        · have h1 : strides.length = 1 := by
+            simp only [Bool.and_eq_true, beq_iff_eq] at hv; exact hv.2
+          have hi0 : i = 0 := by omega
+          subst hi0
+          simp only [hv, List.getElem?_eq_getElem hi', if_true]
+          exact ih _ _ hl' hrest
+        · simp only [hv, List.getElem?_eq_getElem hi']
+          simp only [Bool.false_eq_true, if_false]
+          exact ih _ _ hl' hrest
+    · have : shape.drop i = [] := List.drop_eq_nil_of_le (by omega)
+      rw [this] at hl; simp at hl
+
+theorem ltoi_exact' (shape : Shape) (strides c : List Int)
+    (hlen : strides.length = shape.length) (hc : inBox shape c = true) :
+    ltoi shape strides c = .ok (dot c strides) := by
+  unfold ltoi
+  by_cases hs : isScalarEquiv shape = true
+  · have hz := inBox_scalarEquiv_zero shape c hs hc
+    simp only [hs, hz, if_true, dot_zero_left c strides hz]
+  · simp only [hs]
+    simp only [Bool.false_eq_true, if_false]
+    have := go_exact shape strides hlen c 0 0 (by simpa using hc)
+    simpa using this
+
+theorem ltoi_rejects' (shape : Shape) (strides c : List Int)
+    (hlen : strides.length = shape.length) (harity : c.length = shape.length)
+    (hbad : inBox shape c = false) :
+    ∃ tag, ltoi shape strides c = .error (.err tag) := by
+  unfold ltoi
+  by_cases hs : isScalarEquiv shape = true
+  · simp only [hs, if_true]
+    by_cases hz : c.all (· == 0) = true
+    · have := zero_inBox_scalarEquiv shape c hs harity hz
+      rw [this] at hbad; cases hbad
+    · simp only [hz]; exact ⟨_, rfl⟩
+  · simp only [hs]
+    simp only [Bool.false_eq_true, if_false]
+    exact go_rejects shape strides hlen c 0 0 (by simpa using harity) (by simpa using hbad)
+
+/-! ### mixed-radix arithmetic -/
+
+theorem mr_bounds (c d r P : Int) (h0 : 0 ≤ c) (h1 : c < d) (hr0 : 0 ≤ r) (hr1 : r < P) :
+    0 ≤ c * P + r ∧ c * P + r < d * P := by
+  have hP : 0 ≤ P := by omega
+  have hcP : 0 ≤ c * P := Int.mul_nonneg h0 hP
+  have h2 : (c + 1) * P ≤ d * P := Int.mul_le_mul_of_nonneg_right (by omega) hP
+  rw [Int.add_mul, Int.one_mul] at h2
+  constructor <;> omega
+
+theorem mr_inj (c c' r r' P : Int) (hr0 : 0 ≤ r) (hr1 : r < P) (hr0' : 0 ≤ r') (hr1' : r' < P)
+    (h : c * P + r = c' * P + r') : c = c' ∧ r = r' := by
+  have e1 : (c * P + r) % P = r := by
+    rw [Int.add_comm, Int.add_mul_emod_self_right]; exact Int.emod_eq_of_lt hr0 hr1
+  have e2 : (c' * P + r') % P = r' := by
+    rw [Int.add_comm, Int.add_mul_emod_self_right]; exact Int.emod_eq_of_lt hr0' hr1'
+  have hr : r = r' := by rw [← e1, ← e2, h]
+  subst hr
+  have hc : c * P = c' * P := by omega
+  exact ⟨Int.eq_of_mul_eq_mul_right (by omega) hc, rfl⟩
+
+/-! ### row-major rank -/
+
+theorem rowRank_cons (d : Int) (ds : Shape) (c : Int) (cs : List Int) :
+    rowRank (d :: ds) (c :: cs) = c * prod ds + rowRank ds cs := by
+  simp [rowRank, calcStrides, dot]
+
+theorem rowRank_bounds' : ∀ (shape : Shape) (c : List Int), inBox shape c = true →
+    0 ≤ rowRank shape c ∧ rowRank shape c < prod shape := by
+  intro shape
+  induction shape with
+  | nil => intro c h; cases c <;> simp_all [inBox, rowRank, dot, prod]
+  | cons d ds ih =>
+    intro c h
+    cases c with
+    | nil => simp [inBox] at h
+    | cons x xs =>
+      simp only [inBox, Bool.and_eq_true, decide_eq_true_eq] at h
+      obtain ⟨⟨h0, h1⟩, hrest⟩ := h
+      have := ih xs hrest
+      rw [rowRank_cons, prod]
+      exact mr_bounds x d _ _ h0 h1 this.1 this.2
+
+theorem rowRank_inj' : ∀ (shape : Shape) (c c' : List Int), inBox shape c = true →
+    inBox shape c' = true → rowRank shape c = rowRank shape c' → c = c' := by
+  intro shape
+  induction shape with
+  | nil => intro c c' h h' _; cases c <;> cases c' <;> simp_all [inBox]
+  | cons d ds ih =>
+    intro c c' h h' he
+    cases c with
+    | nil => simp [inBox] at h
+    | cons x xs =>
+      cases c' with
+      | nil => simp [inBox] at h'
+      | cons y ys =>
+        simp only [inBox, Bool.and_eq_true, decide_eq_true_eq] at h h'
+        have b := rowRank_bounds' ds xs h.2
+        have b' := rowRank_bounds' ds ys h'.2
+        rw [rowRank_cons, rowRank_cons] at he
+        have := mr_inj x y _ _ (prod ds) b.1 b.2 b'.1 b'.2 he
+        rw [this.1, ih xs ys h.2 h'.2 this.2]
+
+/-! ### column-major rank -/
+
+theorem dot_prefixProds_scale : ∀ (ds : Shape) (cs : List Int) (a : Int),
+    dot cs (prefixProds a ds) = a * dot cs (prefixProds 1 ds) := by
+  intro ds
+  induction ds with
+  | nil => intro cs a; cases cs <;> simp [prefixProds, dot]
+  | cons d ds ih =>
+    intro cs a
+    cases cs with
+    | nil => simp [dot]
+    | cons x xs =>
+      simp only [prefixProds, dot]
+      rw [ih xs (a * d), ih xs (1 * d)]
+      rw [Int.mul_add, Int.one_mul, Int.mul_one, Int.mul_comm x a, Int.mul_assoc]
+
+theorem colRank_cons (d : Int) (ds : Shape) (c : Int) (cs : List Int) :
+    colRank (d :: ds) (c :: cs) = colRank ds cs * d + c := by
+  simp only [colRank, prefixProds, dot]
+  rw [dot_prefixProds_scale ds cs (1 * d), Int.one_mul, Int.mul_one, Int.mul_comm d, Int.add_comm]
+
+theorem colRank_bounds' : ∀ (shape : Shape) (c : List Int), inBox shape c = true →
+    0 ≤ colRank shape c ∧ colRank shape c < prod shape := by
+  intro shape
+  induction shape with
+  | nil => intro c h; cases c <;> simp_all [inBox, colRank, dot, prod]
+  | cons d ds ih =>
+    intro c h
+    cases c with
+    | nil => simp [inBox] at h
+    | cons x xs =>
+      simp only [inBox, Bool.and_eq_true, decide_eq_true_eq] at h
+      obtain ⟨⟨h0, h1⟩, hrest⟩ := h
+      have := ih xs hrest
+      rw [colRank_cons, prod, Int.mul_comm d]
+      exact mr_bounds _ _ x d this.1 this.2 h0 h1
+
+theorem colRank_inj' : ∀ (shape : Shape) (c c' : List Int), inBox shape c = true →
+    inBox shape c' = true → colRank shape c = colRank shape c' → c = c' := by
+  intro shape
+  induction shape with
+  | nil => intro c c' h h' _; cases c <;> cases c' <;> simp_all [inBox]
+  | cons d ds ih =>
+    intro c c' h h' he
+    cases c with
+    | nil => simp [inBox] at h
+    | cons x xs =>
+      cases c' with
+      | nil => simp [inBox] at h'
+      | cons y ys =>
+        simp only [inBox, Bool.and_eq_true, decide_eq_true_eq] at h h'
+        rw [colRank_cons, colRank_cons] at he
+        have := mr_inj _ _ x y d h.1.1 h.1.2 h'.1.1 h'.1.2 he
+        rw [this.2, ih xs ys h.2 h'.2 this.1]
+
+/-! ### `At` / `SetAt` unfolding -/
+
+theorem at_of_arity (st : St) (t : Dense) (c : List Int) (h : c.length = t.dims) :
+    t.at_ st c = (ltoi t.shape t.strides c >>= fun i => st.get t.win i) := by
+  simp [Dense.at_, h]
+
+theorem setAt_of_arity (st : St) (t : Dense) (c : List Int) (v : Val) (h : c.length = t.dims) :
+    t.setAt st c v = (ltoi t.shape t.strides c >>= fun i => st.set t.win i v) := by
+  simp [Dense.setAt, h]
+
+theorem at_bad_arity (st : St) (t : Dense) (c : List Int) (h : c.length ≠ t.dims) :
+    t.at_ st c = .error (.err "dimMismatch") := by
+  simp [Dense.at_, h]; rfl
+
+theorem setAt_bad_arity (st : St) (t : Dense) (c : List Int) (v : Val) (h : c.length ≠ t.dims) :
+    t.setAt st c v = .error (.err "dimMismatch") := by
+  simp [Dense.setAt, h]; rfl
+
+theorem at_inBox (st : St) (t : Dense) (c : List Int)
+    (hlen : t.strides.length = t.shape.length) (hc : inBox t.shape c = true) :
+    t.at_ st c = st.get t.win (dot c t.strides) := by
+  rw [at_of_arity st t c (inBox_length _ _ hc), ltoi_exact' _ _ _ hlen hc]; rfl
+
+theorem setAt_inBox (st : St) (t : Dense) (c : List Int) (v : Val)
+    (hlen : t.strides.length = t.shape.length) (hc : inBox t.shape c = true) :
+    t.setAt st c v = st.set t.win (dot c t.strides) v := by
+  rw [setAt_of_arity st t c v (inBox_length _ _ hc), ltoi_exact' _ _ _ hlen hc]; rfl
+
+/-! ### heap cells: `St.get` / `St.set` -/
+
+theorem St.set_ok {s s' : St} {w : Win} {i : Int} {v : Val} (h : s.set w i v = .ok s') :
+    ∃ b, 0 ≤ i ∧ i < w.len ∧ s.heap[w.buf]? = some b ∧ w.off + i.toNat < b.size ∧
+      s' = { s with heap := s.heap.set! w.buf (b.set! (w.off + i.toNat) v) } := by
+  unfold St.set at h
+  by_cases hr : (decide (i < 0) || decide (i ≥ (w.len : Int))) = true
+  · simp only [hr, if_true] at h; cases h
+  · simp only [hr] at h
+    simp only [Bool.or_eq_true, decide_eq_true_eq, not_or] at hr
+    cases hb : s.heap[w.buf]? with
+    | none => simp only [hb] at h; cases h
+    | some b =>
+      simp only [hb] at h
+      by_cases hk : w.off + i.toNat < b.size
+      · simp only [hk, if_true, Bool.false_eq_true, if_false] at h
+        refine ⟨b, by omega, by omega, rfl, hk, ?_⟩
+        injection h with h; exact h.symm
+      · simp only [hk, if_false, Bool.false_eq_true] at h; cases h
+
+theorem St.get_set_same {s s' : St} {w : Win} {i : Int} {v : Val} (h : s.set w i v = .ok s') :
+    s'.get w i = .ok v := by
+  obtain ⟨b, h0, h1, hb, hk, rfl⟩ := St.set_ok h
+  obtain ⟨hbuf, hbb⟩ := Array.getElem?_eq_some_iff.mp hb
+  have hr : (decide (i < 0) || decide (i ≥ (w.len : Int))) = false := by
+    simp only [Bool.or_eq_false_iff, decide_eq_false_iff_not]; omega
+  simp [St.get, hr, hbuf, hk]
+
+theorem St.get_set_other {s s' : St} {w : Win} {i j : Int} {v : Val} (h : s.set w i v = .ok s')
+    (hne : j ≠ i) : s'.get w j = s.get w j := by
+  obtain ⟨b, h0, h1, hb, hk, rfl⟩ := St.set_ok h
+  obtain ⟨hbuf, hbb⟩ := Array.getElem?_eq_some_iff.mp hb
+  unfold St.get
+  by_cases hr : (decide (j < 0) || decide (j ≥ (w.len : Int))) = true
+  · simp only [hr, if_true]
+  · simp only [hr]
+    simp only [Bool.or_eq_true, decide_eq_true_eq, not_or] at hr
+    have hk' : i.toNat ≠ j.toNat := by omega
+    simp [hbuf, hbb, hk']
+
+theorem St.set_mheap {s s' : St} {w : Win} {i : Int} {v : Val} (h : s.set w i v = .ok s') :
+    s'.mheap = s.mheap := by
+  obtain ⟨b, _, _, _, _, rfl⟩ := St.set_ok h
+  rfl
+
+/-- frame: a successful `St.set` changes only cell `w.off + i` of buffer `w.buf`. -/
+theorem St.set_frame {s s' : St} {w : Win} {i : Int} {v : Val} (h : s.set w i v = .ok s')
+    (b k : Nat) (hne : b ≠ w.buf ∨ (k : Int) ≠ w.off + i) :
+    (s'.heap[b]?).bind (·[k]?) = (s.heap[b]?).bind (·[k]?) := by
+  obtain ⟨bb, h0, h1, hb, hk, rfl⟩ := St.set_ok h
+  by_cases hbe : w.buf = b
+  · subst hbe
+    have hk' : w.off + i.toNat ≠ k := by
+      rcases hne with hne | hne
+      · exact absurd rfl hne
+      · omega
+    obtain ⟨hbuf, hbb⟩ := Array.getElem?_eq_some_iff.mp hb
+    simp [hbuf, hbb, hk']
+  · simp [hbe]
+
 end TM
